@@ -970,3 +970,85 @@ func VerifC20SameReason() {
 		vassert(e1.Error() == e2.Error(), "and for the same stated reason on every attempt")
 	}
 }
+
+// Invalid option combinations are rejected by Compile - at the top level and for a nested graph compiled through
+// WithGraphCompileOptions, on the first and on a repeated Compile: a step limit in all-predecessor mode or in a
+// workflow, a trigger mode on a chain or a workflow; the same options one at a time are accepted.
+func VerifC20OptionCombos() {
+	ctx := context.Background()
+	vcfg("fifo", 1)
+	mk := func() *Graph[map[string]any, map[string]any] {
+		g := NewGraph[map[string]any, map[string]any]()
+		_ = g.AddLambdaNode("a", vNode("a", nil))
+		_ = g.AddEdge(START, "a")
+		_ = g.AddEdge("a", END)
+		return g
+	}
+	nested := vchoose("nested", 2) == 1
+	compile := func(inner AnyGraph, opts ...GraphCompileOption) error {
+		if !nested {
+			switch x := inner.(type) {
+			case *Graph[map[string]any, map[string]any]:
+				_, err := x.Compile(ctx, opts...)
+				if err == nil || vchoose("again", 2) == 0 {
+					return err
+				}
+				_, err = x.Compile(ctx, opts...)
+				return err
+			case *Workflow[map[string]any, map[string]any]:
+				_, err := x.Compile(ctx, opts...)
+				return err
+			case *Chain[map[string]any, map[string]any]:
+				_, err := x.Compile(ctx, opts...)
+				return err
+			}
+			return nil
+		}
+		outer := NewGraph[map[string]any, map[string]any]()
+		_ = outer.AddGraphNode("sub", inner, WithGraphCompileOptions(opts...))
+		_ = outer.AddEdge(START, "sub")
+		_ = outer.AddEdge("sub", END)
+		_, err := outer.Compile(ctx)
+		return err
+	}
+	wf := func() *Workflow[map[string]any, map[string]any] {
+		w := NewWorkflow[map[string]any, map[string]any]()
+		w.AddLambdaNode("a", vNode("a", nil)).AddInput(START)
+		w.End().AddInput("a")
+		return w
+	}
+	ch := func() *Chain[map[string]any, map[string]any] {
+		c := NewChain[map[string]any, map[string]any]()
+		c.AppendLambda(vNode("a", nil))
+		return c
+	}
+	bad := true
+	var err error
+	switch vchoose("combo", 8) {
+	case 0:
+		err = compile(mk(), WithNodeTriggerMode(AllPredecessor), WithMaxRunSteps(5))
+	case 1:
+		err = compile(wf(), WithMaxRunSteps(5))
+	case 2:
+		err = compile(ch(), WithNodeTriggerMode(AllPredecessor))
+	case 3:
+		err = compile(wf(), WithNodeTriggerMode(AnyPredecessor))
+	case 4:
+		err = compile(mk(), WithMaxRunSteps(5))
+		bad = false
+	case 5:
+		err = compile(mk(), WithNodeTriggerMode(AllPredecessor))
+		bad = false
+	case 6:
+		err = compile(ch(), WithMaxRunSteps(5))
+		bad = false
+	case 7:
+		err = compile(mk(), WithNodeTriggerMode(AnyPredecessor), WithMaxRunSteps(5))
+		bad = false
+	}
+	if bad {
+		vassert(err != nil, "an invalid combination of compile options is rejected")
+	} else {
+		vassert(err == nil, "each of the options alone, and the valid combinations, are accepted")
+	}
+}
